@@ -277,7 +277,12 @@ pub fn draw_plan(prop: &str, index: u64, r: &mut Rng, thorough: bool) -> RunPlan
     }
     // a capacity hint of millions of slots (2^23 + 9; thorough also 2^24 + 1), small
     // uninstrumented types, a short history with a clear in it
-    if (index % 100_000) / 4 == 1 && cfg.world != WorldKind::Seg && !cfg.has(O_TORN) && !cfg.has(O_CAP) && bulk.is_none() && ord_bulk.is_none() {
+    let interpreted = crate::runner::MAX_LEN.load(std::sync::atomic::Ordering::Relaxed) != usize::MAX;
+    if interpreted {
+        // under Miri the construction of a large arena alone takes minutes
+        cfg.cap = cfg.cap.min(1000);
+    }
+    if (index % 100_000) / 4 == 1 && !interpreted && cfg.world != WorldKind::Seg && !cfg.has(O_TORN) && !cfg.has(O_CAP) && bulk.is_none() && ord_bulk.is_none() {
         cfg.key_ty = 1;
         cfg.cap = if thorough && r.chance(1, 2) { (1 << 24) + 1 } else { (1 << 23) + 9 };
         cfg.universe = cfg.universe.min(64);
